@@ -5,3 +5,4 @@ typedef struct _cap_struct *cap_t;
 typedef int cap_value_t;
 typedef int cap_flag_t;
 typedef int cap_flag_value_t;
+extern int capset(cap_user_header_t hdrp, const cap_user_data_t datap);
